@@ -30,7 +30,7 @@ PAY = {"A": "payload-A", "B": "payload-B", "C": "payload-C"}
 CFGS = [{"hl": 12, "dir": None}, {"hl": 64, "dir": None}, {"hl": 3, "dir": None}, {"hl": 12, "dir": "my_store"}, {"hl": 3, "dir": "my_store"}, {"hl": 64, "dir": "my_store"}]
 RUNS = [([], None), (["create"], None), (["fix"], None), (["trim"], None), (["create", "fix"], None), (["create", "fix", "trim"], None),
         (["fix", "trim"], None), (["short-report", "trim"], None), (["report"], None), (["review"], "y"), (["review"], "n"), (["review", "trim"], "n"),
-        (["disable"], None)]
+        (["disable"], None), (["create", "fix"], None, "CI")]
 
 
 def bounds(tier):
@@ -69,12 +69,12 @@ def events(state):
             if PAY[k] != cur:
                 ev.append(["payload", k])
     ev.append(["rmb"] if "test_b.py" in state["files"] else ["addb"])
-    for f, a in RUNS:
-        ev.append(["run", f, a])
+    for r in RUNS:
+        ev.append(["run", r[0], r[1]] + ([r[2]] if len(r) > 2 else []))
     return ev
 
 
-QUICK_SKIP = (["report"], ["disable"], ["review", "trim"], ["fix", "trim"])
+QUICK_SKIP = (["report"], ["review", "trim"], ["fix", "trim"])
 
 
 def apply_edit(state, ev):
@@ -104,7 +104,7 @@ def run_session(state, cfg, ev):
     d = plugin.mk_project(files)
     try:
         stdin = None if ev[2] is None else (ev[2] + "\n").encode() * 8
-        r = plugin.session(d, ["--inline-snapshot=" + ",".join(ev[1])], stdin=stdin)
+        r = plugin.session(d, ["--inline-snapshot=" + ",".join(ev[1])], stdin=stdin, env={"CI": "true"} if len(ev) > 3 else None)
         after = plugin.listing(d, text=True)
     finally:
         plugin.cleanup()
@@ -129,7 +129,7 @@ def check_transition(prev, cfg, ev, new, r, stray):
         return viol
     if stray:
         V("file-outside-storage-dir", str(stray))
-    m = SM.step(prev, ev[1], (ev[2] * 8 if ev[2] else None), cfg["hl"])
+    m = SM.step(prev, ev[1], (ev[2] * 8 if ev[2] else None), cfg["hl"], ci=len(ev) > 3)
     # invariants in the reached state
     for name, content in new["store"].items():
         stem = name.replace("-new.txt", ".txt")
